@@ -83,7 +83,7 @@ func NewAggregateCursor(input comm.KeyCursor, schema *executor.QuerySchema, glob
 func (c *aggregateCursor) SetSchema(inSchema, outSchema record.Schemas, exprOpt []hybridqp.ExprOptions) {
 	c.inSchema = inSchema
 	c.outSchema = outSchema
-	c.coProcessor, c.initColMeta, c.multiCall = newProcessor(inSchema[:inSchema.Len()-1], outSchema[:outSchema.Len()-1], exprOpt)
+	c.coProcessor, c.initColMeta, c.multiCall = newProcessor(inSchema[:inSchema.Len()-1], outSchema[:outSchema.Len()-1], exprOpt, !c.schema.Options().IsAscending())
 	c.reducerParams.multiCall = c.multiCall
 	c.timeOrdinal = outSchema.Len() - 1
 }
